@@ -188,6 +188,24 @@ fn arena_of(t: &Tree) -> String {
     enc_arena_scaled(&slots_of(t)).unwrap_or_else(|_| "_".into())
 }
 
+/// internal nodes get labels spelled like leaves elsewhere in the tree (numeric ids vs support values):
+/// the leaf index must only ever be consulted for tips
+pub fn collide_internal_names(rng: &mut Rng, t: &mut Rose, pct: usize) {
+    let leaves: Vec<String> = t.leaf_names().into_iter().flatten().collect();
+    if leaves.is_empty() {
+        return;
+    }
+    t.for_each_mut(
+        &mut |r, _, _| {
+            if !r.kids.is_empty() && rng.below(100) < pct {
+                r.name = Some(rng.pick(&leaves).clone());
+            }
+        },
+        true,
+        0,
+    );
+}
+
 // ---------- metamorphic variants (C05 invariances) ----------
 fn reorder(rng: &mut Rng, r: &Rose) -> Rose {
     let mut t = r.clone();
@@ -332,7 +350,11 @@ pub fn run_c05(thorough: bool, seed: u64, driver: &str, rep: &mut Report) {
                 let mut perm: Vec<usize> = (0..job.n).collect();
                 let mut first = true;
                 loop {
-                    let t = assign_names(shape, &perm, &names);
+                    let mut t = assign_names(shape, &perm, &names);
+                    if !first && rng.chance(1, 4) {
+                        collide_internal_names(&mut rng, &mut t, 60);
+                        rep.count("internal_labels_spelled_like_leaves");
+                    }
                     c05_tree(&t, &mut rng, &mut q, rep, first);
                     first = false;
                     rep.count("exhaustive_labelled_shapes");
@@ -352,6 +374,10 @@ pub fn run_c05(thorough: bool, seed: u64, driver: &str, rep: &mut Report) {
                 let fancy = rng.chance(1, 2);
                 label(&mut rng, &mut t, &LabelOpts { fancy_names: fancy, len_mode: LenMode::Mixed, ..Default::default() });
                 rep.count(&format!("random_leaves:{}", t.n_leaves() / 10 * 10));
+                if i % 3 == 0 {
+                    collide_internal_names(&mut rng, &mut t, 40);
+                    rep.count("internal_labels_spelled_like_leaves");
+                }
                 c05_tree(&t, &mut rng, &mut q, rep, true);
             }
             q.flush(&d, rep, "c05.parts");
@@ -675,6 +701,11 @@ pub fn run_pairs(prop: &str, thorough: bool, seed: u64, driver: &str, rep: &mut 
                 if weighted && !same {
                     rep.count("random_pairs:skipped-different");
                     continue;
+                }
+                if i % 4 == 1 {
+                    collide_internal_names(&mut rng, &mut a, 40);
+                    collide_internal_names(&mut rng, &mut b, 40);
+                    rep.count("internal_labels_spelled_like_leaves");
                 }
                 rep.case(&format!("{} | {}", a.canon(), b.canon()), true);
                 rep.count(&format!("random_pairs:{}", if same { "same" } else { "different" }));
